@@ -71,11 +71,14 @@ def items(tier):
     b = BOUNDS[tier]
     out = []
 
-    def vti(name, dim, vectors):
+    def vti(name, dim, vectors, **kw):
         out.append(dict(kind="vti", id="vti-%dd-%s" % (dim, name), dim=dim, vectors=vectors, hi=b["vti_max_%dd" % dim],
-                        width=WIDTH, cmax=CMAX))
+                        width=WIDTH, cmax=CMAX, **kw))
     for dim in b["vti_dims"]:
         vti("cell-flat", dim, [dict(key="x", kind="cell", layout="flat", rows=0)])
+        # per iteration: the same domain written repeatedly (the LAST file is examined, and the domain afterwards)
+        vti("mixed-third-write", dim, [dict(key="x", kind="cell", layout="flat", rows=0), dict(key="u", kind="point", layout="flat", rows=0)],
+            writes=3)
         vti("point-flat", dim, [dict(key="u", kind="point", layout="flat", rows=0)])
         vti("mixed", dim, [dict(key="x", kind="cell", layout="flat", rows=0), dict(key="u", kind="point", layout="flat", rows=0)])
         for r in b["vti_block_rows"]:
@@ -385,14 +388,24 @@ def sc_vti(V, P, cfg):
             warnings.simplefilter("ignore")
             if V.symbolic:
                 rec = Recorder()
+                unit_before = list(dom.element_size)
+                for _w in range(cfg.get("writes", 1) - 1):     # earlier iterations with the same domain
+                    with patched(dmod, opener=Recorder().open, wrap_np=True):
+                        dom.write_to_vti(vectors, filename="/virtual/earlier.vti", scale=scale, origin=tuple(origin))
                 with patched(dmod, opener=rec.open, wrap_np=True):
                     dom.write_to_vti(vectors, filename="/virtual/out.vti", scale=scale, origin=tuple(origin))
                 data = rec.files.get("/virtual/out.vti")
                 K.holds("exactly-one-file-opened", rec.opens == [("/virtual/out.vti", "wb")], "vti-structure", info=rec.opens)
+                K.holds("domain-unchanged-by-writing", len(dom.element_size) == len(unit_before) and
+                        all(a is b_ for a, b_ in zip(dom.element_size, unit_before)), "vti-domain-unchanged")
             else:
                 tmp = _mkdtemp()
                 fn = os.path.join(tmp, "out.vti")
-                dom.write_to_vti(vectors, filename=fn, scale=scale, origin=tuple(origin))
+                unit_before = np.array(dom.element_size, dtype=float).copy()
+                for _w in range(cfg.get("writes", 1)):
+                    dom.write_to_vti(vectors, filename=fn, scale=scale, origin=tuple(origin))
+                K.holds("domain-unchanged-by-writing", bool(np.array_equal(unit_before, np.asarray(dom.element_size, dtype=float))),
+                        "vti-domain-unchanged")
                 data = open(fn, "rb").read() if os.path.exists(fn) else None
                 K.holds("exactly-one-file-opened", os.listdir(tmp) == ["out.vti"], "vti-structure", info=os.listdir(tmp))
     finally:
